@@ -1,4 +1,5 @@
 import PebblesVerif.Model.Sanitize
+import PebblesVerif.Gen.Point
 /-!
 Model of the insertion-point codec (executor/point_data.go:28-76, executor/utils.go:100-105):
 points have the form `<field>[:<index>][#<id>]`. Strings are handled as `List Char` so that the
@@ -15,6 +16,11 @@ def splitOn (c : Char) : List Char → List (List Char)
       | [] => [[x]]
       | h :: t => (x :: h) :: t
 
+/-- `strings.SplitN(s, sep, 2)` when `sep` occurs: what precedes the FIRST separator, and all the rest -/
+def splitFirst (c : Char) : List Char → List Char × List Char
+  | [] => ([], [])
+  | x :: xs => if x = c then ([], xs) else (x :: (splitFirst c xs).1, (splitFirst c xs).2)
+
 structure PointData where
   field : String
   index : Option Nat     -- Go: -1 when absent
@@ -25,15 +31,19 @@ def allDigits (l : List Char) : Bool := !l.isEmpty && l.all Char.isDigit
 
 def digitsToNat (l : List Char) : Nat := l.foldl (fun n ch => n * 10 + (ch.toNat - '0'.toNat)) 0
 
-/-- `CachedPointDataExtractor.Extract` (the cache is transparent). The index is parsed with
+/-- `CachedPointDataExtractor.Extract` (the cache is transparent). How the id is cut off is a
+    regenerated fact (`Gen.Point.idSplitFirst`, read from executor/point_data.go on every run). The index is parsed with
     `strconv.ParseInt(s, 0, 32)`; the model accepts decimal digits only (what the encoder emits). -/
 def extractL (point : List Char) : G PointData :=
   let (field, id) :=
     if point.contains '#' then
-      match splitOn '#' point with
-      | [f, i] => (f, i)
-      | f :: _ => (f, [])      -- more than one '#': the id is dropped (!)
-      | [] => (point, [])
+      if Gen.Point.idSplitFirst then
+        splitFirst '#' point   -- `strings.SplitN(point, "#", 2)`: the id may itself contain '#'
+      else
+        match splitOn '#' point with   -- `strings.Split(point, "#")` (before the repair)
+        | [f, i] => (f, i)
+        | f :: _ => (f, [])      -- more than one '#': the id is dropped (!)
+        | [] => (point, [])
     else (point, [])
   if field.contains ':' then
     match splitOn ':' field with
